@@ -147,6 +147,10 @@ def replay_one(case):
         except Exception as e:  # pylint: disable=broad-except
             out.append((mode, "outside", f"sympy construction raised {type(e).__name__}"))
             continue
+        if mode == "evaluated" and exp_c == "nan" and any(t in ("q0", "q0m", "qoos") for t in prog):
+            # 0 * (infinite-valued quantity): SymPy itself collapses the product, the quantity being a symbol to it
+            out.append((mode, "outside", "SymPy evaluates a product of a literal with a zero/infinite-valued quantity symbolically"))
+            continue
         if mode == "evaluated" and _sympy_rewrote(expr):
             out.append((mode, "outside", "SymPy's own evaluation introduced re/im/arg or merged quantity exponents"))
             continue
@@ -175,7 +179,7 @@ def replay_one(case):
         if mode != "asis":
             continue
         # the symbolic wrappers take their dimension from inference
-        if len(prog) > 1:
+        if len(prog) > 1 and exp_c in ("fin", "irr"):     # (SymPy cannot even print NaN-valued products)
             for wrapper in (Average, FiniteDifference):
                 try:
                     w = wrapper(expr)
